@@ -572,10 +572,6 @@ func (w *Writer) flushActiveChunk() error {
 		Compression:      string(w.opts.Compression),
 		Records:          w.compressed.Bytes(),
 	}
-	w.compressed.Reset()
-	w.compressedWriter.Reset(w.compressed)
-	w.compressedWriter.ResetSize()
-	w.compressedWriter.ResetCRC()
 
 	// message indexes
 	messageIndexes := []*MessageIndex{}
@@ -589,6 +585,13 @@ func (w *Writer) flushActiveChunk() error {
 	}
 
 	err = w.writeChunkWithIndexes(&chunk, messageIndexes, false)
+	// chunk.Records is the content of w.compressed: the buffer is handed back to the compressor
+	// only now that the chunk has been written out. A compressor may write to its destination as
+	// soon as it is reset (a stream header), which would land on the bytes of the pending chunk.
+	w.compressed.Reset()
+	w.compressedWriter.Reset(w.compressed)
+	w.compressedWriter.ResetSize()
+	w.compressedWriter.ResetCRC()
 	if err != nil {
 		return err
 	}
